@@ -237,6 +237,10 @@ def run_con(run, P):
         # obs->non_cnt < MAX / >= MAX
         if c.get('k') == 'bin' and c.get('op') in ('<', '>=', '<=', '>'):
             l = strip(c['l'])
+            if const_int(c['l']) is not None and isinstance(strip(c['r']), dict) and strip(c['r']).get('k') == 'mem':
+                # MAX > obs->non_cnt: the same test with its operands the other way round
+                c = {'k': 'bin', 'op': {'<': '>', '>': '<', '<=': '>=', '>=': '<='}[c['op']], 'l': c['r'], 'r': c['l']}
+                l = strip(c['l'])
             if isinstance(l, dict) and l.get('k') == 'mem' and l.get('f') == 'non_cnt' and const_int(c['r']) is not None:
                 K = const_int(c['r'])
                 below = None
